@@ -51,6 +51,8 @@ def run_adaptive(nodes, mode, rng, n_ops, pre_ops=(), opts=None, flavour="future
     """Generates ops online while running the implementation.  Returns (case, observations)."""
     opts = opts or {}
     case = {"mode": mode, "nodes": nodes, "ops": []}
+    if opts.get("exc"):
+        case["exc"] = opts["exc"]          # the exception type the failing user functions raise (default ValueError)
     st = {"tag": 0, "ref": 0}
 
     def all_refs():
